@@ -1,3 +1,4 @@
+import Mathlib.Data.List.Nodup
 import Hub.Model.Genesis
 import Hub.Lemmas.Tbl
 import Hub.Lemmas.Money
@@ -225,10 +226,205 @@ theorem exportVals_keys (enc : κ → Bytes) {t : Tbl κ α} (key : α → κ) (
 
 end exp
 
-/-! ### views of the `InitGenesis` folds -/
+/-! ### round trip of one table -/
+
+section roundtrip
+variable {κ α : Type} [DecidableEq κ]
+
+theorem get_import_exportTbl (enc : κ → Bytes) {t : Tbl κ α} (h : Tbl.Nodup t) (k : κ) :
+    Tbl.get (Tbl.importOn [] (exportTbl enc t)) k = t.get k := by
+  rw [Tbl.get_import (exportTbl_nodup enc h)]
+  exact Tbl.get_eq_of_perm (exportTbl_nodup enc h) (exportTbl_perm enc h) k
+
+theorem get_import_exportVals (enc : κ → Bytes) {t : Tbl κ α} (key : α → κ) (h : Tbl.Nodup t)
+    (hk : ∀ k v, t.get k = some v → key v = k) (k : κ) :
+    Tbl.get (Tbl.importOn [] ((exportVals enc t).map fun v => (key v, v))) k = t.get k := by
+  rw [exportVals_rekey enc key hk]; exact get_import_exportTbl enc h k
+
+end roundtrip
 
 def isActive {α : Type} (st : α → Status) (x : α) : Bool := st x = .StatusActive
 def isInactive {α : Type} (st : α → Status) (x : α) : Bool := st x = .StatusInactive
+
+theorem filter_active_append {α : Type} (st : α → Status) (la li : List α)
+    (ha : ∀ x ∈ la, st x = .StatusActive) (hi : ∀ x ∈ li, st x = .StatusInactive) :
+    (la ++ li).filter (isActive st) = la ∧ (la ++ li).filter (isInactive st) = li := by
+  have h1 : la.filter (isActive st) = la := List.filter_eq_self.mpr (fun x hx => by simp [isActive, ha x hx])
+  have h2 : li.filter (isActive st) = [] := List.filter_eq_nil_iff.mpr (fun x hx => by simp [isActive, hi x hx])
+  have h3 : la.filter (isInactive st) = [] := List.filter_eq_nil_iff.mpr (fun x hx => by simp [isInactive, ha x hx])
+  have h4 : li.filter (isInactive st) = li := List.filter_eq_self.mpr (fun x hx => by simp [isInactive, hi x hx])
+  simp [List.filter_append, h1, h2, h3, h4]
+
+/-! ### a table split into an active and an inactive partition -/
+
+/-- Both partitions are duplicate-free, every record sits under its own key in the partition of its
+status, and no key is in both partitions. -/
+structure PartOK {κ α : Type} [DecidableEq κ] (tA tI : Tbl κ α) (key : α → κ) (st : α → Status) : Prop where
+  nodupA : Tbl.Nodup tA
+  nodupI : Tbl.Nodup tI
+  ownA : ∀ k v, tA.get k = some v → key v = k ∧ st v = .StatusActive
+  ownI : ∀ k v, tI.get k = some v → key v = k ∧ st v = .StatusInactive
+  disj : ∀ k v, tA.get k = some v → tI.get k = none
+
+namespace PartOK
+variable {κ α : Type} [DecidableEq κ] {tA tI : Tbl κ α} {key : α → κ} {st : α → Status}
+
+theorem mem (eA eI : κ → Bytes) {v : α} :
+    v ∈ exportVals eA tA ++ exportVals eI tI ↔ ∃ k, tA.get k = some v ∨ tI.get k = some v := by
+  simp only [List.mem_append, mem_exportVals]
+  constructor
+  · rintro (⟨k, h⟩ | ⟨k, h⟩)
+    · exact ⟨k, Or.inl h⟩
+    · exact ⟨k, Or.inr h⟩
+  · rintro ⟨k, h | h⟩
+    · exact Or.inl ⟨k, h⟩
+    · exact Or.inr ⟨k, h⟩
+
+theorem filters (h : PartOK tA tI key st) (eA eI : κ → Bytes) :
+    (exportVals eA tA ++ exportVals eI tI).filter (isActive st) = exportVals eA tA ∧
+    (exportVals eA tA ++ exportVals eI tI).filter (isInactive st) = exportVals eI tI :=
+  filter_active_append st _ _
+    (fun x hx => by obtain ⟨k, hk⟩ := mem_exportVals.mp hx; exact (h.ownA k x hk).2)
+    (fun x hx => by obtain ⟨k, hk⟩ := mem_exportVals.mp hx; exact (h.ownI k x hk).2)
+
+theorem status (h : PartOK tA tI key st) (eA eI : κ → Bytes) :
+    ∀ v ∈ exportVals eA tA ++ exportVals eI tI, st v = .StatusActive ∨ st v = .StatusInactive := by
+  intro v hv
+  obtain ⟨k, hk | hk⟩ := (mem eA eI).mp hv
+  · exact Or.inl (h.ownA k v hk).2
+  · exact Or.inr (h.ownI k v hk).2
+
+theorem get_active (h : PartOK tA tI key st) (eA eI : κ → Bytes) (k : κ) :
+    Tbl.get (Tbl.importOn [] (((exportVals eA tA ++ exportVals eI tI).filter (isActive st)).map fun v => (key v, v))) k = tA.get k := by
+  rw [(h.filters eA eI).1]
+  exact get_import_exportVals eA key h.nodupA (fun k v hv => (h.ownA k v hv).1) k
+
+theorem get_inactive (h : PartOK tA tI key st) (eA eI : κ → Bytes) (k : κ) :
+    Tbl.get (Tbl.importOn [] (((exportVals eA tA ++ exportVals eI tI).filter (isInactive st)).map fun v => (key v, v))) k = tI.get k := by
+  rw [(h.filters eA eI).2]
+  exact get_import_exportVals eI key h.nodupI (fun k v hv => (h.ownI k v hv).1) k
+
+theorem keys_nodup (h : PartOK tA tI key st) (eA eI : κ → Bytes) :
+    ((exportVals eA tA ++ exportVals eI tI).map key).Nodup := by
+  rw [List.map_append, exportVals_keys eA key (fun k v hv => (h.ownA k v hv).1),
+    exportVals_keys eI key (fun k v hv => (h.ownI k v hv).1), List.nodup_append]
+  refine ⟨exportTbl_nodup eA h.nodupA, exportTbl_nodup eI h.nodupI, ?_⟩
+  intro a ha b hb hab
+  subst hab
+  simp only [List.mem_map, Prod.exists, exists_and_right, exists_eq_right] at ha hb
+  obtain ⟨v, hv⟩ := ha
+  obtain ⟨w, hw⟩ := hb
+  have := h.disj a v (mem_exportTbl.mp hv)
+  rw [mem_exportTbl.mp hw] at this
+  cases this
+
+/-- Lookup in the pair of partitions (`GetX`: active first). -/
+theorem get_either (h : PartOK tA tI key st) {k : κ} {v : α} :
+    (match tA.get k with | some x => some x | none => tI.get k) = some v ↔ (tA.get k = some v ∨ tI.get k = some v) := by
+  cases ha : tA.get k with
+  | none => simp
+  | some x =>
+    simp only [Option.some.injEq]
+    constructor
+    · intro e; exact Or.inl e
+    · rintro (e | e)
+      · exact e
+      · rw [h.disj k x ha] at e; cases e
+
+end PartOK
+
+/-! ### plan links -/
+
+theorem mem_linkedAddrs {s : State} {i : Nat} {a : Addr} : a ∈ linkedAddrs s i ↔ s.nodeForPlan.get (i, a) = some () := by
+  unfold linkedAddrs
+  rw [mem_sortKeys, Tbl.get_unit_iff_mem_keys]
+  simp only [List.mem_map, List.mem_filter, decide_eq_true_eq, Prod.exists, exists_eq_right]
+  constructor
+  · rintro ⟨i', hm, e⟩; exact e ▸ hm
+  · intro hm; exact ⟨i, hm, rfl⟩
+
+theorem linkedAddrs_nodup {s : State} (h : Tbl.Nodup s.nodeForPlan) (i : Nat) : (linkedAddrs s i).Nodup := by
+  unfold linkedAddrs
+  rw [(sortKeys_perm _ _).nodup_iff]
+  have hk : s.nodeForPlan.keys.Nodup := h
+  refine List.Nodup.map_on ?_ (hk.filter _)
+  rintro ⟨i1, a1⟩ h1 ⟨i2, a2⟩ h2 e
+  simp only [List.mem_filter, decide_eq_true_eq] at h1 h2
+  simp only at e
+  rw [Prod.mk.injEq]; exact ⟨h1.2.trans h2.2.symm, e⟩
+
+theorem filterMap_eq_self {β : Type} {f : β → Option β} {l : List β} (h : ∀ x ∈ l, f x = some x) : l.filterMap f = l := by
+  induction l with
+  | nil => rfl
+  | cons x xs ih =>
+    rw [List.filterMap_cons, h x (List.mem_cons_self ..)]
+    simp only
+    rw [ih (fun y hy => h y (List.mem_cons_of_mem _ hy))]
+
+theorem getNode_iff {s : State} (hn : PartOK s.nodeActive s.nodeInactive (·.addr) (·.status)) {a : Addr} {n : Node} :
+    getNode s a = some n ↔ (s.nodeActive.get a = some n ∨ s.nodeInactive.get a = some n) := by
+  unfold getNode; exact hn.get_either
+
+/-- With every linked node present under its own key the exported node list of a plan is the list of its link keys. -/
+theorem exportPlanNodes_eq {s : State} (hn : PartOK s.nodeActive s.nodeInactive (·.addr) (·.status)) (i : Nat)
+    (hl : ∀ a, s.nodeForPlan.get (i, a) = some () → ∃ n, s.nodeActive.get a = some n ∨ s.nodeInactive.get a = some n) :
+    exportPlanNodes s i = linkedAddrs s i := by
+  unfold exportPlanNodes
+  apply filterMap_eq_self
+  intro a ha
+  obtain ⟨n, hnn⟩ := hl a (mem_linkedAddrs.mp ha)
+  rw [(getNode_iff hn).mpr hnn]
+  simp only [Option.map_some, Option.some.injEq]
+  rcases hnn with h | h
+  · exact (hn.ownA a n h).1
+  · exact (hn.ownI a n h).1
+
+/-! ### the counter rebuilt from the largest id -/
+
+theorem maxId_fold (ids : List Nat) (c : Nat) :
+    c ≤ ids.foldl (fun c i => if i > c then i else c) c ∧
+    (∀ i ∈ ids, i ≤ ids.foldl (fun c i => if i > c then i else c) c) ∧
+    (ids.foldl (fun c i => if i > c then i else c) c = c ∨ ids.foldl (fun c i => if i > c then i else c) c ∈ ids) := by
+  induction ids generalizing c with
+  | nil => simp
+  | cons x xs ih =>
+    simp only [List.foldl_cons, List.mem_cons]
+    by_cases hx : x > c
+    · simp only [hx, if_true]
+      obtain ⟨h1, h2, h3⟩ := ih x
+      refine ⟨by omega, ?_, ?_⟩
+      · intro i hi
+        rcases hi with rfl | hi
+        · exact h1
+        · exact h2 i hi
+      · rcases h3 with h3 | h3
+        · right; left; exact h3
+        · right; right; exact h3
+    · simp only [hx, if_false]
+      obtain ⟨h1, h2, h3⟩ := ih c
+      refine ⟨h1, ?_, ?_⟩
+      · intro i hi
+        rcases hi with rfl | hi
+        · omega
+        · exact h2 i hi
+      · rcases h3 with h3 | h3
+        · left; exact h3
+        · right; right; exact h3
+
+theorem maxId_ge {ids : List Nat} {i : Nat} (h : i ∈ ids) : i ≤ maxId ids := (maxId_fold ids 0).2.1 i h
+theorem maxId_mem (ids : List Nat) : maxId ids = 0 ∨ maxId ids ∈ ids := (maxId_fold ids 0).2.2
+
+/-- The largest id (0 for none) is characterised by being an upper bound that is attained. -/
+theorem maxId_eq {ids : List Nat} {c : Nat} (hub : ∀ i ∈ ids, i ≤ c) (hat : c = 0 ∨ c ∈ ids) : maxId ids = c := by
+  apply Nat.le_antisymm
+  · rcases maxId_mem ids with h | h
+    · omega
+    · exact hub _ h
+  · rcases hat with h | h
+    · omega
+    · exact maxId_ge h
+
+/-! ### views of the `InitGenesis` folds -/
 
 theorem foldlM_cons_ok {α : Type} (f : State → α → M State) (a : α) (l : List α) (s s1 : State) (h : f s a = .ok s1) :
     (a :: l).foldlM f s = l.foldlM f s1 := by
@@ -324,6 +520,14 @@ theorem initSessions_fold (xs : List Session) (s : State) :
 
 /-! ### what a re-import produces -/
 
+theorem params_rebuild (p : Params) :
+    ({ provDeposit := p.provider.deposit, provShare := p.provider.share, nodeDeposit := p.node.deposit, activeDur := p.node.activeDur,
+       maxGB := p.node.maxGB, minGB := p.node.minGB, maxHr := p.node.maxHr, minHr := p.node.minHr, maxSubGB := p.node.maxSubGB,
+       minSubGB := p.node.minSubGB, maxSubHr := p.node.maxSubHr, minSubHr := p.node.minSubHr, nodeShare := p.node.share,
+       subDelay := p.subscription.delay, sessDelay := p.session.delay, proof := p.session.proof, swapOn := p.swap.on,
+       swapDenom := p.swap.denom, approveBy := p.swap.approveBy } : Params) = p := by
+  cases p; rfl
+
 /-- Result of the `node.InitGenesis` loop (see `initNodes_fold`). -/
 def nodesInto (ns : List Node) (s : State) : State :=
   { s with
@@ -356,18 +560,25 @@ def sessionsInto (xs : List Session) (p : SessionParams) (s : State) : State :=
     sessCount := some (maxId (xs.map (·.id))) }
 
 theorem initSessions_eq (xs : List Session) (p : SessionParams) (s : State) : initSessions xs p s = sessionsInto xs p s := by
-  unfold initSessions; rw [initSessions_fold]; rfl
+  have h : initSessions xs p s =
+      { (xs.foldl initSessionStep { s with params := { s.params with sessDelay := p.delay, proof := p.proof } }) with
+        sessCount := some (maxId (xs.map (·.id))) } := rfl
+  rw [h, initSessions_fold]; rfl
+
+def setProviderParams (s : State) (p : ProviderParams) : State :=
+  { s with params := { s.params with provDeposit := p.deposit, provShare := p.share } }
 
 /-- The state a successful re-import of `s` yields: the pure form of `initGenesis` on the export of `s`. -/
 def imported (s : State) : State :=
-  let g := exportVpn s
-  let s1 := initDeposits g.deposits (sdkSide s)
-  let s2 := nodesInto g.nodes (setNodeParams s1 g.nodeParams)
-  let s3 := plansInto g.plans s2
-  let s4 := providersInto g.providers { s3 with params := { s3.params with provDeposit := g.providerParams.deposit, provShare := g.providerParams.share } }
-  let s5 := sessionsInto g.sessions g.sessionParams s4
-  let s6 := initSubscriptions g.subscriptions g.subscriptionParams s5
-  initMint (exportMint s) (initSwap (exportSwap s) s6)
+  initMint (exportMint s) (initSwap (exportSwap s)
+    (initSubscriptions [] s.params.subscription
+      (sessionsInto (exportVals session.SessionKey s.sessions) s.params.session
+        (providersInto (exportProviders s)
+          (setProviderParams
+            (plansInto (exportPlans s)
+              (nodesInto (exportNodes s)
+                (setNodeParams (initDeposits (exportTbl deposit.DepositKey s.deposits) (sdkSide s)) s.params.node)))
+            s.params.provider)))))
 
 theorem initGenesis_exported (s : State)
     (hN : ∀ n ∈ exportNodes s, n.status = .StatusActive ∨ n.status = .StatusInactive)
@@ -393,47 +604,51 @@ theorem initGenesis_exported (s : State)
   rw [e5, e2, ok_bind, e3, ok_bind, e4, ok_bind, pure_bind', initSessions_eq]
   rfl
 
-/-! ### projections of the re-imported state -/
+/-! ### projections of the re-imported state
+
+(`rfl` through the nine layers is exponential in the elaborator's unifier; `simp only` with the layer
+definitions reduces the projections layer by layer.) -/
+
+macro "imp_proj" : tactic => `(tactic| simp only [imported, initMint, initSwap, initSubscriptions, sessionsInto, providersInto,
+  setProviderParams, plansInto, nodesInto, setNodeParams, initDeposits, sdkSide])
 
 section proj
 variable (s : State)
-theorem imported_deposits : (imported s).deposits = Tbl.importOn [] (exportTbl deposit.DepositKey s.deposits) := rfl
-theorem imported_nodeActive : (imported s).nodeActive = Tbl.importOn [] (((exportNodes s).filter (isActive (·.status))).map fun n => (n.addr, n)) := rfl
-theorem imported_nodeInactive : (imported s).nodeInactive = Tbl.importOn [] (((exportNodes s).filter (isInactive (·.status))).map fun n => (n.addr, n)) := rfl
-theorem imported_nodeQ : (imported s).nodeQ = Tbl.keysOn [] (((exportNodes s).filter (isActive (·.status))).map fun n => (n.inactiveAt, n.addr)) := rfl
-theorem imported_planActive : (imported s).planActive = Tbl.importOn [] (((exportPlans s).filter (isActive (·.plan.status))).map fun it => (it.plan.id, it.plan)) := rfl
-theorem imported_planInactive : (imported s).planInactive = Tbl.importOn [] (((exportPlans s).filter (isInactive (·.plan.status))).map fun it => (it.plan.id, it.plan)) := rfl
-theorem imported_planForProv : (imported s).planForProv = Tbl.keysOn [] ((exportPlans s).map fun it => (it.plan.prov, it.plan.id)) := rfl
-theorem imported_nodeForPlan : (imported s).nodeForPlan = Tbl.keysOn [] (planLinks (exportPlans s)) := rfl
-theorem imported_planCount : (imported s).planCount = some (maxId ((exportPlans s).map (·.plan.id))) := rfl
-theorem imported_provActive : (imported s).provActive = Tbl.importOn [] (((exportProviders s).filter (isActive (·.status))).map fun p => (p.addr, p)) := rfl
-theorem imported_provInactive : (imported s).provInactive = Tbl.importOn [] (((exportProviders s).filter (isInactive (·.status))).map fun p => (p.addr, p)) := rfl
-theorem imported_sessions : (imported s).sessions = Tbl.importOn [] ((exportVals session.SessionKey s.sessions).map fun x => (x.id, x)) := rfl
-theorem imported_sessForAcc : (imported s).sessForAcc = Tbl.keysOn [] ((exportVals session.SessionKey s.sessions).map fun x => (x.addr, x.id)) := rfl
-theorem imported_sessForNode : (imported s).sessForNode = Tbl.keysOn [] ((exportVals session.SessionKey s.sessions).map fun x => (x.node, x.id)) := rfl
-theorem imported_sessForSub : (imported s).sessForSub = Tbl.keysOn [] ((exportVals session.SessionKey s.sessions).map fun x => (x.sub, x.id)) := rfl
-theorem imported_sessForAlloc : (imported s).sessForAlloc = Tbl.keysOn [] ((exportVals session.SessionKey s.sessions).map fun x => (x.sub, x.addr, x.id)) := rfl
-theorem imported_sessQ : (imported s).sessQ = Tbl.keysOn [] ((exportVals session.SessionKey s.sessions).map fun x => (x.inactiveAt, x.id)) := rfl
-theorem imported_sessCount : (imported s).sessCount = some (maxId ((exportVals session.SessionKey s.sessions).map (·.id))) := rfl
+theorem imported_deposits : (imported s).deposits = Tbl.importOn [] (exportTbl deposit.DepositKey s.deposits) := by imp_proj; rfl
+theorem imported_nodeActive : (imported s).nodeActive = Tbl.importOn [] (((exportNodes s).filter (isActive (·.status))).map fun n => (n.addr, n)) := by imp_proj
+theorem imported_nodeInactive : (imported s).nodeInactive = Tbl.importOn [] (((exportNodes s).filter (isInactive (·.status))).map fun n => (n.addr, n)) := by imp_proj
+theorem imported_nodeQ : (imported s).nodeQ = Tbl.keysOn [] (((exportNodes s).filter (isActive (·.status))).map fun n => (n.inactiveAt, n.addr)) := by imp_proj; rfl
+theorem imported_planActive : (imported s).planActive = Tbl.importOn [] (((exportPlans s).filter (isActive (·.plan.status))).map fun it => (it.plan.id, it.plan)) := by imp_proj
+theorem imported_planInactive : (imported s).planInactive = Tbl.importOn [] (((exportPlans s).filter (isInactive (·.plan.status))).map fun it => (it.plan.id, it.plan)) := by imp_proj
+theorem imported_planForProv : (imported s).planForProv = Tbl.keysOn [] ((exportPlans s).map fun it => (it.plan.prov, it.plan.id)) := by imp_proj; rfl
+theorem imported_nodeForPlan : (imported s).nodeForPlan = Tbl.keysOn [] (planLinks (exportPlans s)) := by imp_proj; rfl
+theorem imported_planCount : (imported s).planCount = some (maxId ((exportPlans s).map (·.plan.id))) := by imp_proj
+theorem imported_provActive : (imported s).provActive = Tbl.importOn [] (((exportProviders s).filter (isActive (·.status))).map fun p => (p.addr, p)) := by imp_proj
+theorem imported_provInactive : (imported s).provInactive = Tbl.importOn [] (((exportProviders s).filter (isInactive (·.status))).map fun p => (p.addr, p)) := by imp_proj
+theorem imported_sessions : (imported s).sessions = Tbl.importOn [] ((exportVals session.SessionKey s.sessions).map fun x => (x.id, x)) := by imp_proj
+theorem imported_sessForAcc : (imported s).sessForAcc = Tbl.keysOn [] ((exportVals session.SessionKey s.sessions).map fun x => (x.addr, x.id)) := by imp_proj
+theorem imported_sessForNode : (imported s).sessForNode = Tbl.keysOn [] ((exportVals session.SessionKey s.sessions).map fun x => (x.node, x.id)) := by imp_proj
+theorem imported_sessForSub : (imported s).sessForSub = Tbl.keysOn [] ((exportVals session.SessionKey s.sessions).map fun x => (x.sub, x.id)) := by imp_proj
+theorem imported_sessForAlloc : (imported s).sessForAlloc = Tbl.keysOn [] ((exportVals session.SessionKey s.sessions).map fun x => (x.sub, x.addr, x.id)) := by imp_proj
+theorem imported_sessQ : (imported s).sessQ = Tbl.keysOn [] ((exportVals session.SessionKey s.sessions).map fun x => (x.inactiveAt, x.id)) := by imp_proj
+theorem imported_sessCount : (imported s).sessCount = some (maxId ((exportVals session.SessionKey s.sessions).map (·.id))) := by imp_proj
 theorem imported_swaps : (imported s).swaps = Tbl.importOn [] ((exportVals swap.SwapKey s.swaps).map fun x => (x.hash, x)) := by
-  show List.foldl _ _ _ = _; unfold Tbl.importOn; rw [List.foldl_map]; rfl
+  imp_proj; unfold Tbl.importOn exportSwap; rw [List.foldl_map]
 theorem imported_inflations : (imported s).inflations = Tbl.importOn [] ((exportVals mint.InflationKey s.inflations).map fun i => (i.ts, i)) := by
-  show List.foldl _ _ _ = _; unfold Tbl.importOn; rw [List.foldl_map]; rfl
+  imp_proj; unfold Tbl.importOn exportMint; rw [List.foldl_map]
 theorem imported_params : (imported s).params = s.params := by
-  show _ = s.params
-  conv => rhs; rw [← params_rebuild s.params]
-  rfl
+  imp_proj; simp only [exportSwap]; exact params_rebuild s.params
 /-- F5, for every state: nothing of the subscription module survives except its parameter. -/
 theorem imported_subscriptions_empty :
     (imported s).subs = [] ∧ (imported s).subQ = [] ∧ (imported s).subForAcc = [] ∧ (imported s).subForNode = [] ∧
     (imported s).subForPlan = [] ∧ (imported s).allocs = [] ∧ (imported s).payouts = [] ∧ (imported s).payQ = [] ∧
-    (imported s).payForAcc = [] ∧ (imported s).payForNode = [] ∧ (imported s).payForAccNode = [] ∧ (imported s).subCount = none :=
-  ⟨rfl, rfl, rfl, rfl, rfl, rfl, rfl, rfl, rfl, rfl, rfl, rfl⟩
+    (imported s).payForAcc = [] ∧ (imported s).payForNode = [] ∧ (imported s).payForAccNode = [] ∧ (imported s).subCount = none := by
+  imp_proj; simp
 theorem imported_sdk :
     (imported s).bank = s.bank ∧ (imported s).supply = s.supply ∧ (imported s).time = s.time ∧ (imported s).height = s.height ∧
     (imported s).keyed = s.keyed ∧ (imported s).mintMax = s.mintMax ∧ (imported s).mintMin = s.mintMin ∧
-    (imported s).mintRate = s.mintRate ∧ (imported s).minterInfl = s.minterInfl :=
-  ⟨rfl, rfl, rfl, rfl, rfl, rfl, rfl, rfl, rfl⟩
+    (imported s).mintRate = s.mintRate ∧ (imported s).minterInfl = s.minterInfl ∧ (imported s).modified = {} ∧ (imported s).events = [] := by
+  imp_proj; simp
 end proj
 
 end Hub.Model
